@@ -1031,6 +1031,8 @@ def container_grid(tier):
     c("tuple negative index", lambda np, t: np.sum(t[-1] * t[-2]), [(R(2), R(2), R(2))])
     c("list concatenation + iteration", lambda np, l, k: sum(np.sum(e * float(i + 1)) for i, e in enumerate(l + [k])), [[R(2), R(2)], R(2)])
     c("reflected concatenation", lambda np, l, k: sum(np.sum(e * float(i + 1)) for i, e in enumerate((k,) + l)), [(R(2), R(2)), R(2)])
+    c("tuple consumed WHOLE three times (three dense container cotangents)", lambda np, t, k: sum(np.sum((t + (k,))[0] * (t + (k,))[1]) * float(i + 1) for i in range(3)), [(R(2), R(2)), R(2)])
+    c("list consumed WHOLE four times", lambda np, l, k: sum(np.sum(e) * float(j + 1) for i in range(4) for j, e in enumerate(l + [k * float(i)])), [[R(2), R(2)], R(2)])
     c("concatenation of two traced lists", lambda np, l: sum(np.sum(e * float(i + 1)) for i, e in enumerate(l + l)), [[R(2), R(2)]])
     c("len / in / unpacking", lambda np, t: (lambda a, b: np.sum(a * b) * len(t))(*t), [(R(2), R(2))])
     c("wrt second container argument", lambda np, x, t: np.sum(x * t[0]) + t[1] * np.sum(x), [R(2), (R(2), SC)], 1)
@@ -1044,6 +1046,8 @@ def container_grid(tier):
     c("output list via autograd list", lambda np, x: L(np)([x[0] * x, x[::-1]]), [R(2)])
     c("output dict via autograd dict", lambda np, x: Dd(np)(a=x * x, b=np.sum(x)), [R(2)])
     c("output nested via constructors", lambda np, t: T(np)((L(np)([t[0] * 2.0, t[1] * t[0]]), t[1])), [(R(2), R(2))])
+    c("inner tuple shared by three outer slots", lambda np, x: (lambda t: L(np)([t, t, t]))(T(np)((np.sin(x), 2.0 * x))), [R(2)])
+    c("inner list shared by four dict entries", lambda np, x: (lambda t: Dd(np)(a=t, b=t, c=t, d=t))(L(np)([x * x, x + 1.0])), [R(2)])
     c("container in, container out", lambda np, d: T(np)((d["a"] * d["b"], d["b"] + 1.0)), [{"a": R(2), "b": R(2)}])
     return _uniq(out)
 
